@@ -539,6 +539,15 @@ fn format_directive<'entry>(
             }
         }
 
+        FormatDirective::Type { follow_links }
+            if !*follow_links && !file_info.file_type().is_symlink() =>
+        {
+            // %y agrees with -type: a link the follow mode resolves is not a link.
+            format_non_link_file_type(file_info.file_type())
+                .to_string()
+                .into()
+        }
+
         FormatDirective::Type { follow_links } => if file_info.path_is_symlink() {
             if *follow_links {
                 match file_info.path().metadata().map_err(WalkError::from) {
